@@ -13,7 +13,7 @@ RULE = ("(a) heap.h in process with the player's comparator: every sequence of <
         "player's pop/re-insert pattern; oracle: multiset model (pop returns a minimal key, NULL iff empty, size) "
         "and after every operation a tree walk (parent links, heap order, complete shape, node count).  "
         "(b) ovnidump/ovnitop on 0-8 streams of 0-30 arbitrary events with heavy cross-stream clock ties, empty "
-        "streams, time scales from 1 ns to 70 s between events (clock differences beyond 32 bits), nested stream directories, two creation orders: output is a valid merge (non-decreasing clock, "
+        "streams, time scales from 1 ns to 70 s between events (clock differences beyond 32 bits), nested stream directories, two creation orders (in a third to a half of the cases the second layout keeps one top-level directory elsewhere and reaches it through a symbolic link): output is a valid merge (non-decreasing clock, "
         "every event once, per-stream order kept), identical for both creation orders; ovnitop counts = multiset. "
         "(b') the text-mode dump lists exactly the events of the hex-mode dump, also well-formed events it cannot render (labels of 1000-5000 characters).  (c) ovniemu with 1-3 looms and clock-offsets.txt (negative, zero, large; hosts whose own clocks are hours apart; corrected origins that are negative or exactly 0; clocks beyond 2^53), tracer-dye marks: lines of "
         "thread.prv in file order are a valid merge in corrected time, each time = corrected - corrected(first), "
@@ -142,7 +142,10 @@ def dump_cases(draw):
         streams.append({"loom": "n.0", "pid": 1, "tid": 100 + i, "app": 1, "path": path, "events": evs,
                         "cpus": [[0, 0]] if i == 0 else None})
     order = list(draw(st.permutations(list(range(ns)))))
-    return {"streams": streams, "mkorder": order}
+    # one case in three: in the second layout the top-level directory of one stream lives elsewhere
+    # and the trace directory holds a symbolic link to it (looms collected from node-local storage)
+    symlink = draw(st.integers(0, ns - 1)) if ns and draw(st.integers(0, 2)) == 0 else None
+    return {"streams": streams, "mkorder": order, "symlink": symlink}
 
 
 def parse_dump(out):
@@ -160,11 +163,18 @@ def run_dump(case, ctx):
     b = ctx.b("plain")
     streams = case["streams"]
     outs = []
+    extra_dirs = []
     for order in (list(range(len(streams))), case["mkorder"]):
         d = ctx.newdir()
         try:
             tr = {"streams": streams, "mkorder": order}
             T.write_trace(tr, d)
+            if case.get("symlink") is not None and order is case["mkorder"]:
+                comp = streams[case["symlink"]]["path"].split("/")[0]
+                away = ctx.newdir()
+                extra_dirs.append(away)
+                os.rename(os.path.join(d, comp), os.path.join(away, comp))
+                os.symlink(os.path.join(away, comp), os.path.join(d, comp))
             r = tools.dump(b, d, ("-x",))
             if len(streams) == 0:
                 if r.kind not in ("ok", "rejected"):
@@ -191,6 +201,9 @@ def run_dump(case, ctx):
             outs.append((rows, rt.out))
         finally:
             ctx.rmdir(d)
+            for x in extra_dirs:
+                ctx.rmdir(x)
+            del extra_dirs[:]
     rows = outs[0][0]
     # valid merge
     expected = {}
@@ -215,7 +228,7 @@ def run_dump(case, ctx):
             raise Violation("stream %s: dumped events differ from the stream content (order/loss/duplication): got %s want %s"
                             % (path, got[:5], evs[:5]))
     if outs[0][0] != outs[1][0]:
-        raise Violation("ovnidump output depends on the directory creation order")
+        raise Violation("ovnidump output depends on the directory creation order" + (" or on a top-level directory of the trace being a symbolic link" if case.get("symlink") is not None else ""))
     # ovnitop counts
     cnt = {}
     for s in streams:
@@ -230,7 +243,7 @@ def run_dump(case, ctx):
         raise Violation("ovnitop counts %s != multiset of events %s" % (got, cnt))
     clocks = [set(e[1] for e in s["events"]) for s in streams]
     tie = any(clocks[i] & clocks[j] for i in range(len(clocks)) for j in range(i + 1, len(clocks)))
-    return {"nt": tie, "cls": ["dump:streams=%d" % len(streams)]}
+    return {"nt": tie, "cls": ["dump:streams=%d" % len(streams)] + (["dump:symlinked-directory"] if case.get("symlink") is not None else [])}
 
 
 # ---- (c) emulator with offsets --------------------------------------------------------
